@@ -1427,7 +1427,7 @@ class BADS:
                     self.fval = self.iteration_history.get("fval")[idx_impr]
                     self.fsd = self.iteration_history.get("fsd")[idx_impr]
                     self.u = self.iteration_history.get("u")[idx_impr]
-                    self.best_u = self.u.copy()
+                    self.u_best = self.u.copy()
                     self.best_gp_hyp = self.iteration_history.get(
                         "gp_hyp_full"
                     )[idx_impr]
